@@ -25,8 +25,19 @@ Theorem C06_reports_are_the_recount : forall J j0 jstep jout dk rate ops,
   in_scope J jstep jout dk rate (a_init J j0) ops ->
   r_run J jstep jout dk rate (r_init J j0) (map wrap_aop ops) =
   a_run J jstep jout dk rate (a_init J j0) ops.
-Proof. intros. apply (run_refines J j0); [apply rel_init|assumption]. Qed.
+Proof. intros. apply (run_refines J j0); [exact (rel_init J j0 jstep jout dk rate)|assumption]. Qed.
 Print Assumptions C06_reports_are_the_recount.
+
+(* the same from a stream whose cumulative loss counter starts at any t0 below
+   2^24 (the correspondence uses this, through the hook PresetTotalLost, to reach
+   the saturation at 2^24-1) *)
+Theorem C06_reports_are_the_recount_preset : forall J j0 jstep jout dk rate t0 ops,
+  0 <= t0 <= 16777215 ->
+  in_scope J jstep jout dk rate (mkA None [] 0 t0 0 0 j0 0 None) ops ->
+  r_run J jstep jout dk rate (mkR false (fun _ => false) 0 0 0 0 0 j0 0 None t0) (map wrap_aop ops) =
+  a_run J jstep jout dk rate (mkA None [] 0 t0 0 0 j0 0 None) ops.
+Proof. intros. apply (run_refines J j0); [exact (rel_preset J j0 jstep jout dk t0 H)|assumption]. Qed.
+Print Assumptions C06_reports_are_the_recount_preset.
 
 (* the scope hypothesis is satisfiable, across the 2^16 wrap, with loss, a
    late packet, a duplicate, an SR and two reports; and the specification
